@@ -101,6 +101,7 @@ def build_tools(san="asan"):
 
 # ---- build of generated code + driver ----------------------------------------------
 SAN_FLAGS = {
+    "tsan": (["clang"], ["-O1", "-g", "-w", "-std=gnu99", "-fsanitize=thread", "-fno-omit-frame-pointer"], ["-fsanitize=thread"]),
     "plain": (["gcc"], ["-O1", "-g", "-w", "-std=gnu99"], []),
     # pointer-overflow and nonnull-attribute are left out: they only add "applying zero offset to null pointer"
     # (NULL + 0) and memcpy(dst, NULL, 0) on empty buffers, idioms the skeletons use everywhere (recorded once in
